@@ -118,10 +118,11 @@ RunResult execute_plan(const Plan &p, int armed, Stats &st) {
                 PrngObj &o = a.ts[ti]->p[oi];
                 if (!o.m.base) continue;
                 // (4) delivered bytes of a short delivery are mixed in
-                if (o.flip_op >= 0 && o.out_log.size() >= o.flip_out_off + 16) {
+                for (uint64_t which = 0; which < 2 && !a.viol.set; which++)
+                if (o.flip_op >= 0 && o.out_log.size() >= o.flip_out_off + 16 && (which == 0 || o.flip_k > 1)) {
                     std::vector<int> map;
                     Plan q = derive_generator_plan(p, ti, oi, map);
-                    for (size_t k = 0; k < map.size(); k++) if (map[k] == o.flip_op) q.tasks[0].ops[k].d = (uint64_t)o.flip_req + 1;
+                    for (size_t k = 0; k < map.size(); k++) if (map[k] == o.flip_op) q.tasks[0].ops[k].d = ((uint64_t)o.flip_req + 1) | (which << 32);
                     q.arena_seed ^= 0x1111; q.paint_seed ^= 0x2222;
                     WorldRun T;
                     run_world(T, q, PR_NONE, nullptr, true, order_sequential(q), 3);
@@ -132,7 +133,7 @@ RunResult execute_plan(const Plan &p, int armed, Stats &st) {
                     if (x.out_log.size() != o.out_log.size())
                         report(a, C17, "twin-diverged-shape", "generator re-run with one delivered byte flipped produced a different amount of output");
                     else if (memcmp(x.out_log.data() + off, o.out_log.data() + off, n) == 0)
-                        report(a, C17, "delivered-bytes-ignored", "flipping a byte of a short (" + std::to_string(o.flip_k) + "-byte) entropy delivery did not change the following output: delivered bytes are not mixed in");
+                        report(a, C17, "delivered-bytes-ignored", std::string("flipping the ") + (which ? "last" : "first") + " byte of a short (" + std::to_string(o.flip_k) + "-byte) entropy delivery did not change the following output: delivered bytes are not mixed in");
                     else check_pass(a, C17);
                     if (a.viol.set) { a.viol.task = (int)ti; a.viol.op = o.flip_op; }
                 }
